@@ -125,13 +125,10 @@ Lemma get_spec_total : forall q T, is_cat q -> exists g, get_spec q T = Some g.
 Proof. intros q T H; dty q; try discriminate H; dty T; eexists; reflexivity. Qed.
 
 (** pair assignment: members of kind T / T& (const members are not assignable) *)
-Definition assignable_kind (k : ty) : Prop := cst k = false /\ rf k <> RR.
-
-Lemma pair_assign_agrees : forall dk sk sc, assignable_kind dk -> assignable_kind sk -> is_cat sc ->
+Lemma pair_assign_agrees : forall dk sk sc, is_cat sc ->
   pair_assign_m dk sk sc = pair_assign_spec dk sk sc.
 Proof.
-  intros dk sk sc [H1 H1'] [H2 H2'] H3; dty dk; try discriminate H1; try (exfalso; apply H1'; reflexivity);
-    dty sk; try discriminate H2; try (exfalso; apply H2'; reflexivity); dty sc; try discriminate H3; reflexivity.
+  intros dk sk sc H3; dty dk; dty sk; dty sc; try discriminate H3; reflexivity.
 Qed.
 
 (** construction / assignment matrix: the header's requires-clauses are the standard's constraints, for all 7 x 7
@@ -159,6 +156,28 @@ Lemma tuple_converting_ctor_refuted : tuple_converting_ctor_m <> tuple_convertin
 Proof. discriminate. Qed.
 Lemma get_by_type_refuted : exists p, get_by_type_m p <> get_by_type_spec p.
 Proof. exists true. discriminate. Qed.
+
+Lemma fref_ctor_wf_agrees : forall q a, fref_ctor_wf_m q a = fref_ctor_wf_spec q a.
+Proof. intros q a; dty a; destruct q; reflexivity. Qed.
+(* the constraint before the repair promised an rvalue callable with only operator()&& and refused an rvalue with only operator()& *)
+Lemma fref_ctor_wf_old_refuted :
+  fref_ctor_wf_old_m QR RV = true /\ fref_ctor_wf_spec QR RV = false /\ fref_ctor_wf_old_m QL RV = false /\ fref_ctor_wf_spec QL RV = true.
+Proof. repeat split; reflexivity. Qed.
+
+Lemma tuple_swappable_agrees : forall es, ~ In ECopyOnly es -> tuple_swappable_m es = tuple_swappable_spec es.
+Proof.
+  intros es H. unfold tuple_swappable_m, tuple_swappable_spec.
+  destruct (forallb elem_swappable es) eqn:E; [reflexivity|]. cbn [orb].
+  induction es as [|e es IH]; [discriminate E|]. cbn [forallb] in *.
+  destruct e; cbn [elem_swappable leaf_assignable andb] in *; try reflexivity;
+    try (apply IH; [intros Hin; apply H; right; exact Hin | exact E]).
+  exfalso. apply H. left. reflexivity.
+Qed.
+Lemma tuple_swap_refs_agrees : forall a b c d, tuple_swap_refs_m a b c d = tuple_swap_refs_spec a b c d.
+Proof. reflexivity. Qed.
+(* before the repair only the generic swap existed: tuples with reference elements were not swappable *)
+Lemma tuple_swappable_needed_overload : forallb leaf_assignable [ELRef] = false /\ tuple_swappable_spec [ELRef] = true.
+Proof. split; reflexivity. Qed.
 
 Lemma pair_swappable_agrees : forall a b, a <> ECopyOnly -> b <> ECopyOnly -> pair_swappable_m a b = pair_swappable_spec a b.
 Proof. intros a b Ha Hb; destruct a; destruct b; try reflexivity; exfalso; first [apply Ha; reflexivity | apply Hb; reflexivity]. Qed.
